@@ -22,6 +22,7 @@ def call_reader(kind, p, d, call, ctx, extra_patches=()):
     import copy
     proxy = seams.OsProxy(call.get("perm_seed"), ctx)
     pairs = [(m, "os", proxy) for m in reader_modules()] + list(extra_patches)
+    pairs.append((reader_modules()[4], "Path", seams.make_path_class(proxy)))      # hadrons walks directories with pathlib
     c2 = copy.deepcopy(call)        # readers sort caller lists in place; the plan must stay unchanged
     with seams.patched(pairs):
         try:
